@@ -151,6 +151,34 @@ pub fn replay(args: &[String]) -> i32 {
             bad += 1;
             out.line(&json!({"kind": "mismatch", "case": case, "observed": observed}));
         }
+        // A bulk insertion that does not fit is refused whatever the magnitudes: the same case with
+        // the maximum at the top of usize and an exact-size iterator whose announced length exceeds
+        // the room by the same amount (n + k - m); only Overflow with untouched contents is allowed.
+        let k = arr(&case["op"]["s"]).len();
+        if case["op"]["name"] == "push_many" && k > 0 && vals.len() + k > max && vals.len() <= max {
+            for big_max in [usize::MAX, usize::MAX - 1, usize::MAX / 2 + 1] {
+                n += 1;
+                let excess = vals.len() + k - max;
+                let huge_len = (big_max - vals.len()).saturating_add(excess).max(big_max - vals.len());
+                let observed = guarded(|| {
+                    let mut st = build(&vals, big_max);
+                    let r = match st.push_many((0..huge_len).map(|_| 7u8)) {
+                        Ok(()) => json!({"k": "ok"}),
+                        Err(e) => err(&e),
+                    };
+                    json!({"ret": r, "vals": contents(&st), "max": "huge"})
+                })
+                .unwrap_or_else(|m| json!({"panic": m}));
+                let ok = observed["ret"]["k"] == "overflow" && observed["vals"] == case["vals"];
+                if !ok {
+                    bad += 1;
+                    let mut c2 = case.clone();
+                    c2["huge"] = json!({"max": big_max.to_string(), "announced_len": huge_len.to_string()});
+                    out.line(&json!({"kind": "mismatch", "case": c2, "observed": observed}));
+                    break;
+                }
+            }
+        }
     }
     out.line(&json!({"kind": "summary", "cases": n, "mismatches": bad}));
     out.finish();
